@@ -99,6 +99,9 @@ def impl_hist(case):
     mf = mido.MidiFile(type=1, ticks_per_beat=tpb)
     mf.type = ty
     out, fail, i, nobs = [], None, 0, 0
+    if len(mf.tracks) != 0:
+        fail = ('fresh-file-not-empty', 'a MidiFile built without tracks starts with %d track(s) (left over from files built earlier in the process)' % len(mf.tracks))
+        del mf.tracks[:]
     try:
         while i < len(l):
             k = l[i]
